@@ -16,6 +16,7 @@ import (
 	clientCmd "github.com/bokysan/socketace/v2/internal/commands/client"
 	serverCmd "github.com/bokysan/socketace/v2/internal/commands/server"
 	"github.com/bokysan/socketace/v2/internal/server"
+	"github.com/bokysan/socketace/v2/internal/socketace"
 	"github.com/bokysan/socketace/v2/internal/streams"
 	"github.com/bokysan/socketace/v2/internal/util/addr"
 	"github.com/bokysan/socketace/v2/internal/util/cert"
@@ -86,6 +87,7 @@ type Pair struct {
 	StdioApp map[string]net.Conn // channel -> application end of a stdio listener
 	Relay    *Relay
 	URelay   *UDPRelay
+	PipeTap  *PipeTap
 	SrvPort  int
 	intr     chan os.Signal
 	files    []io.Closer
@@ -170,6 +172,16 @@ func buildEndpoints(cfg *PairConfig, p *Pair) (server.Server, upstream.Upstream,
 		c2sR, c2sW := osPipe()
 		s2cR, s2cW := osPipe()
 		p.files = append(p.files, c2sR, c2sW, s2cR, s2cW)
+		if cfg.ViaRelay {
+			// recording tap on the standard-stream carrier: client -> tap -> server and back
+			p.PipeTap = &PipeTap{}
+			c2sR2, c2sW2 := osPipe()
+			s2cR2, s2cW2 := osPipe()
+			p.files = append(p.files, c2sR2, c2sW2, s2cR2, s2cW2)
+			go p.PipeTap.copy(c2sR, c2sW2, true)
+			go p.PipeTap.copy(s2cR, s2cW2, false)
+			c2sR, s2cR = c2sR2, s2cR2
+		}
 		a := addr.MustParseAddress(cfg.Carrier + "://")
 		srv := &server.IoServer{ServerConfig: sc, Address: a, Channels: cfg.AllowList, Input: c2sR, Output: s2cW}
 		up := &upstream.InputOutput{Address: a, Input: s2cR, Output: c2sW}
@@ -201,7 +213,12 @@ func buildEndpoints(cfg *PairConfig, p *Pair) (server.Server, upstream.Upstream,
 			dom = "example.org"
 		}
 		srv := &server.DnsServer{Domain: dom, SocketServer: server.SocketServer{ServerConfig: sc, Address: addr.MustParseAddress(fmt.Sprintf("dns://127.0.0.1:%d", port)), Channels: cfg.AllowList}}
-		up := &upstream.Dns{Address: addr.MustParseAddress(fmt.Sprintf("dns://%s?direct=false&dns=127.0.0.1:%d", dom, port))}
+		cport := port
+		if cfg.ViaRelay {
+			p.URelay = NewUDPRelay(HostPort(port))
+			cport = p.URelay.Port
+		}
+		up := &upstream.Dns{Address: addr.MustParseAddress(fmt.Sprintf("dns://%s?direct=false&dns=127.0.0.1:%d", dom, cport))}
 		return srv, up, nil
 	}
 	return nil, nil, fmt.Errorf("unknown carrier %q", cfg.Carrier)
@@ -391,6 +408,89 @@ func (p *Pair) Close() {
 			os.Remove(p.unixPath)
 		}
 	})
+}
+
+// PipeTap records what crosses a standard-stream carrier.
+type PipeTap struct {
+	mu       sync.Mutex
+	up, down []byte
+}
+
+func (t *PipeTap) copy(r io.Reader, w io.WriteCloser, up bool) {
+	buf := make([]byte, 64*1024)
+	for {
+		n, err := r.Read(buf)
+		if n > 0 {
+			t.mu.Lock()
+			if up {
+				t.up = append(t.up, buf[:n]...)
+			} else {
+				t.down = append(t.down, buf[:n]...)
+			}
+			t.mu.Unlock()
+			if _, werr := w.Write(buf[:n]); werr != nil {
+				return
+			}
+		}
+		if err != nil {
+			w.Close()
+			return
+		}
+	}
+}
+
+func (t *PipeTap) Recorded() (up, down []byte) {
+	t.mu.Lock()
+	defer t.mu.Unlock()
+	return append([]byte(nil), t.up...), append([]byte(nil), t.down...)
+}
+
+// WireRecorded returns what the carrier observer saw in both directions (nil,nil,false without an observer).
+func (p *Pair) WireRecorded() (up, down []byte, ok bool) {
+	switch {
+	case p.Relay != nil:
+		u, d := p.Relay.Recorded()
+		return u, d, true
+	case p.URelay != nil:
+		u, d := p.URelay.Recorded()
+		return u, d, true
+	case p.PipeTap != nil:
+		u, d := p.PipeTap.Recorded()
+		return u, d, true
+	}
+	return nil, nil, false
+}
+
+// ClientConnOf digs the socketace client connection out of an established upstream (nil if there is none).
+func ClientConnOf(u upstream.Upstream) *socketace.ClientConnection {
+	var c interface{}
+	switch v := u.(type) {
+	case *upstream.Socket:
+		c = v.Connection
+	case *upstream.Http:
+		c = v.Connection
+	case *upstream.Packet:
+		c = v.Connection
+	case *upstream.InputOutput:
+		c = v.Connection
+	case *upstream.Dns:
+		c = v.Connection
+	}
+	for i := 0; i < 12 && c != nil; i++ {
+		if cc, ok := c.(*socketace.ClientConnection); ok {
+			return cc
+		}
+		if un, ok := c.(streams.UnwrappedConnection); ok {
+			c = un.Unwrap()
+			continue
+		}
+		if nc, ok := c.(*streams.NamedConnection); ok {
+			c = nc.Connection
+			continue
+		}
+		return nil
+	}
+	return nil
 }
 
 // IsBindError recognises a start-up failure caused by a port clash (counted inconclusive, never a verdict).
